@@ -33,7 +33,7 @@ IU = 'utils.iter_utils'
 
 
 def run(ctx: Ctx):
-  for r in (r1, r2, r3, r4, r6):
+  for r in (r1, r2, r3, r4, r6, r10):
     ctx.guard(r)
   from mlmverif.props import c04
   from mlmverif.props._queue import model as qmodel
@@ -58,6 +58,90 @@ def run(ctx: Ctx):
               ' producer after EVERY successful dequeue, whichever way the'
               ' consumer leaves (batch full, queue empty, single get) (R-C04-5)',
               c04.r5, qmodel(ctx), min_instances=4)
+
+_QUEUE_MAKERS = {'piter_multiplex', 'piter_fn', 'IteratorQueue', 'AsyncIteratorQueue'}
+
+
+def _stop_link_methods(repo) -> set[str]:
+  """Methods of the queue class that register their argument to be stopped with the queue:
+  the parameter is stored into a self attribute whose elements maybe_stop() stops."""
+  ci = repo.cls(IU, 'IteratorQueue')
+  ms = ci.methods.get('maybe_stop')
+  if ms is None:
+    return set()
+  stopped_attrs = set()
+  for x in ast.walk(ms.node):
+    if isinstance(x, ast.For) and is_self_attr(x.iter) and isinstance(x.target, ast.Name):
+      if any(isinstance(c, ast.Call) and isinstance(c.func, ast.Attribute) and c.func.attr == 'maybe_stop'
+             and isinstance(c.func.value, ast.Name) and c.func.value.id == x.target.id for c in ast.walk(x)):
+        stopped_attrs.add(x.iter.attr)
+    if isinstance(x, ast.Call) and isinstance(x.func, ast.Attribute) and x.func.attr == 'maybe_stop' and is_self_attr(
+        x.func.value):
+      stopped_attrs.add(x.func.value.attr)
+  out = set()
+  for name, m in ci.methods.items():
+    ps = FuncInfo(m.module, m.qualname, m.node, ci).params()[1:]
+    for x in walk_no_nested(m.node):
+      if isinstance(x, ast.Call) and isinstance(x.func, ast.Attribute) and x.func.attr in ('append', 'add') and is_self_attr(
+          x.func.value) and x.func.value.attr in stopped_attrs and x.args and isinstance(x.args[0], ast.Name) and (
+              x.args[0].id in ps):
+        out.add(name)
+      if isinstance(x, ast.Assign) and any(is_self_attr(t) and t.attr in stopped_attrs for t in x.targets) and isinstance(
+          x.value, ast.Name) and x.value.id in ps and name != '__init__':
+        out.add(name)
+  return out
+
+
+def r10(ctx: Ctx):
+  rule = 'R-C13-10'
+  ctx.rule(rule, '"stopped early, all helper threads finish": a function that stacks two'
+           ' queues — it builds a queue A (piter_multiplex / piter_fn / IteratorQueue)'
+           ' and feeds it into the construction of a second queue B that it returns —'
+           ' links their stops: B.<link>(A), where <link> is a queue method that stores'
+           ' its argument in an attribute whose elements maybe_stop() stops. Without the'
+           ' link, stopping the consumer of B stops B\'s workers only: the threads'
+           ' filling A stay blocked in put() on its full buffer for ever and the pool'
+           ' never shuts down')
+  repo = ctx.repo
+  links = _stop_link_methods(repo)
+  n = 0
+  mi = repo.module(IU)
+  for fi in mi.functions.values():
+    made: dict[str, ast.Call] = {}
+    for x in walk_no_nested(fi.node):
+      if isinstance(x, ast.Assign) and len(x.targets) == 1 and isinstance(x.targets[0], ast.Name) and isinstance(
+          x.value, ast.Call) and unparse(x.value.func).split('.')[-1] in _QUEUE_MAKERS:
+        made[x.targets[0].id] = x.value
+    # B: a maker call (assigned or returned directly) that receives a made queue A as argument
+    for x in walk_no_nested(fi.node):
+      call = None
+      bname = None
+      if isinstance(x, ast.Return) and isinstance(x.value, ast.Call) and unparse(x.value.func).split('.')[-1] in _QUEUE_MAKERS:
+        call = x.value
+      elif isinstance(x, ast.Assign) and len(x.targets) == 1 and isinstance(x.targets[0], ast.Name) and isinstance(
+          x.value, ast.Call) and unparse(x.value.func).split('.')[-1] in _QUEUE_MAKERS:
+        call, bname = x.value, x.targets[0].id
+      if call is None:
+        continue
+      fed = [a.id for a in list(call.args) + [k.value for k in call.keywords]
+             if isinstance(a, ast.Name) and a.id in made and made[a.id] is not call]
+      for a in fed:
+        n += 1
+        linked = bname is not None and any(
+            isinstance(c, ast.Call) and isinstance(c.func, ast.Attribute) and c.func.attr in links
+            and isinstance(c.func.value, ast.Name) and c.func.value.id == bname and any(
+                isinstance(y, ast.Name) and y.id == a for y in c.args)
+            for c in walk_no_nested(fi.node))
+        if linked:
+          ctx.ok(rule, fi, f'{fi.name}: the queue fed from `{a}` stops `{a}` with itself', call)
+        else:
+          ctx.fail(rule, fi, f'{fi.name}: stacked queues link their stops',
+                   f'`{a}` (built by {unparse(made[a].func)}) feeds `{unparse(call.func)}(...)`, whose queue is'
+                   f' what the caller gets, but nothing registers `{a}` to be stopped with it'
+                   f' (known link methods: {sorted(links) or "none"}): an early stop of the consumer leaves'
+                   f' the threads filling `{a}` blocked in put() for ever', node=call)
+  ctx.floor(rule, 1, n)
+
 
 
 def _fail_shared(sub, m):
@@ -374,6 +458,14 @@ from mlmverif.selfcheck import B, OK  # noqa: E402
 
 _F = 'utils/iter_utils.py'
 VARIANTS = [
+    B('revert-stacked-queues-linked', 'utils/iter_utils.py',
+      '    result.stop_with(input_iterable)\n', '    pass\n', 'R-C13-10'),
+    B('stop-link-not-honoured-by-maybe-stop', 'utils/iter_utils.py',
+      '    for other in self._stopped_with:\n      other.maybe_stop()\n', '', 'R-C13-10'),
+    OK('stop-link-variable-renamed', 'utils/iter_utils.py',
+       '  result = piter_fn(\n      iterator_fn,', '  out_queue = piter_fn(\n      iterator_fn,',
+       extra=[('utils/iter_utils.py', '  if isinstance(result, IteratorQueue) and isinstance(\n      input_iterable, IteratorQueue\n  ):', '  if isinstance(out_queue, IteratorQueue) and isinstance(\n      input_iterable, IteratorQueue\n  ):'),
+              ('utils/iter_utils.py', '    result.stop_with(input_iterable)\n  return result\n', '    out_queue.stop_with(input_iterable)\n  return out_queue\n')]),
     B('multiplex-only-with-enough-sources', _F,
       '    if len(self._source_iterators) > 1:\n      iterators = self._source_iterators',
       '    if len(self._source_iterators) >= max(parallism, 2):\n      iterators = self._source_iterators',
